@@ -12,6 +12,7 @@ import (
 	"google.golang.org/protobuf/encoding/protowire"
 	"google.golang.org/protobuf/types/known/timestamppb"
 	"strings"
+	"time"
 
 	"google.golang.org/protobuf/proto"
 	"google.golang.org/protobuf/types/known/fieldmaskpb"
@@ -254,33 +255,42 @@ func check(c mcase, fail func(key, msg string)) {
 		if c.Bad {
 			return // a Pull with a corrupted mask is covered through its building block (filter)
 		}
+		defer func() {
+			if p := recover(); p != nil {
+				ne, ok := p.(noEvent)
+				if !ok {
+					panic(p)
+				}
+				report("no-event", ne.what+" never arrived")
+			}
+		}()
 		next := proto.Clone(cat[(c.Msg+5)%len(cat)])
 		wantNext := lib.Project(next, mask)
 		ctx, cancel := context.WithCancel(context.Background())
 		defer cancel()
 		v := resource.NewValue(resource.WithInitialValue(msg))
 		ch := v.Pull(ctx, resource.WithReadMask(mask), resource.WithBackpressure(true))
-		seed := <-ch
+		seed := recvV(ch, "the seed of the masked Value.Pull")
 		compare("Value.Pull seed", seed.Value)
 		unchanged("Value.Pull seed")
 		{
 			ctx0, cancel0 := context.WithCancel(context.Background())
 			ch0 := v.Pull(ctx0, resource.WithReadPaths(&lib.T{}, "default_int32"), resource.WithReadMask(mask), resource.WithBackpressure(true))
-			seed0 := <-ch0
+			seed0 := recvV(ch0, "the seed of the masked Value.Pull")
 			cancel0()
 			compare("Value.Pull(another read mask option, then this read mask) seed", seed0.Value)
 		}
 		// a second subscriber without a mask, registered later: what the first one is shown is its own business
 		chAll := v.Pull(ctx, resource.WithBackpressure(true))
-		if seedAll := <-chAll; !same(seedAll.Value, orig) {
+		if seedAll := recvV(chAll, "the seed of the unmasked Value.Pull"); !same(seedAll.Value, orig) {
 			report("projection", fmt.Sprintf("an unmasked Value.Pull next to a masked one is seeded with %v, stored is %v", seedAll.Value, orig))
 		}
 		go v.Set(proto.Clone(next))
-		ev := <-ch
+		ev := recvV(ch, "the event of the masked Value.Pull")
 		if !same(ev.Value, wantNext) {
 			report("projection", fmt.Sprintf("Value.Pull event carries %v, the projection is %v", ev.Value, wantNext))
 		}
-		if evAll := <-chAll; !same(evAll.Value, next) {
+		if evAll := recvV(chAll, "the event of the unmasked Value.Pull"); !same(evAll.Value, next) {
 			report("projection", fmt.Sprintf("an unmasked Value.Pull next to a masked one receives %v, written was %v", evAll.Value, next))
 		}
 		if !same(ev.Value, wantNext) {
@@ -291,13 +301,13 @@ func check(c mcase, fail func(key, msg string)) {
 		defer cancel2()
 		col := resource.NewCollection(resource.WithInitialRecord("a", proto.Clone(orig)))
 		cch := col.Pull(ctx2, resource.WithReadMask(mask), resource.WithBackpressure(true))
-		cs := <-cch
+		cs := recvC(cch, "the seed of the masked Collection.Pull")
 		compare("Collection.Pull seed", cs.NewValue)
 		cchAll := col.Pull(ctx2, resource.WithBackpressure(true))
-		<-cchAll
+		recvC(cchAll, "the seed of the unmasked Collection.Pull")
 		go col.Update("a", proto.Clone(next))
-		ce := <-cch
-		if ceAll := <-cchAll; !same(ceAll.NewValue, next) || !same(ceAll.OldValue, orig) {
+		ce := recvC(cch, "the event of the masked Collection.Pull")
+		if ceAll := recvC(cchAll, "the event of the unmasked Collection.Pull"); !same(ceAll.NewValue, next) || !same(ceAll.OldValue, orig) {
 			report("projection", fmt.Sprintf("an unmasked Collection.Pull next to a masked one receives %v -> %v, written was %v -> %v", ceAll.OldValue, ceAll.NewValue, orig, next))
 		}
 		if !same(ce.NewValue, wantNext) {
@@ -319,20 +329,59 @@ func check(c mcase, fail func(key, msg string)) {
 			defer cancel3()
 			col3 := resource.NewCollection(resource.WithInitialRecord("a", proto.Clone(orig)))
 			nb := col3.Pull(ctx3, resource.WithBackpressure(true), resource.WithInclude(func(id string, m proto.Message) bool { return same(m, orig) }))
-			<-nb
+			recvC(nb, "the seed of the selecting neighbour")
 			mch := col3.Pull(ctx3, resource.WithReadMask(mask), resource.WithBackpressure(true))
 			go col3.Update("a", proto.Clone(next))
-			nbEv := <-nb
+			nbEv := recvC(nb, "the event of the selecting neighbour")
 			if nbEv.ChangeType != types.ChangeType_REMOVE {
 				report("include", fmt.Sprintf("a subscriber selecting the items equal to %v is told %v when the item becomes %v", orig, nbEv.ChangeType, next))
 			}
-			<-mch // seed
-			me := <-mch
+			recvC(mch, "the seed of the masked Collection.Pull next to the neighbour")
+			me := recvC(mch, "the event of the masked Collection.Pull next to the neighbour")
 			if me.ChangeType != types.ChangeType_UPDATE || !same(me.NewValue, wantNext) || !same(me.OldValue, want) {
 				report("projection", fmt.Sprintf("next to a selecting neighbour the masked Collection.Pull receives %v %v -> %v, the projections of the update are UPDATE %v -> %v", me.ChangeType, me.OldValue, me.NewValue, want, wantNext))
 			}
 		}
 	}
+}
+
+// recvV / recvC: a receive that gives up after a long while. On the unchanged tree every event of these histories is
+// there within microseconds; a changed tree that never delivers one is a violation to report, not a worker to lose.
+type noEvent struct{ what string }
+
+// patience: half a minute for the first event that does not come; once one has been given up on (the tree under test is
+// convicted by then) the later ones are given two seconds, so that the run ends.
+var gaveUp bool
+
+func patience() time.Duration {
+	if gaveUp {
+		return 2 * time.Second
+	}
+	return 30 * time.Second
+}
+
+func recvV(ch <-chan *resource.ValueChange, what string) *resource.ValueChange {
+	select {
+	case v, ok := <-ch:
+		if ok {
+			return v
+		}
+	case <-time.After(patience()):
+	}
+	gaveUp = true
+	panic(noEvent{what})
+}
+
+func recvC(ch <-chan *resource.CollectionChange, what string) *resource.CollectionChange {
+	select {
+	case v, ok := <-ch:
+		if ok {
+			return v
+		}
+	case <-time.After(patience()):
+	}
+	gaveUp = true
+	panic(noEvent{what})
 }
 
 func corrupt() [][]string {
